@@ -277,6 +277,31 @@ def check_case(ctx, carrier, pp, lab, n_extra, base=None):
     ctx.case(carrier, dict(parent_row=list(pp), ids=list(lab), extra_columns=n_extra), nontrivial=nontrivial)
 
 
+def check_custom_names(ctx, pp):
+    """sort_tree on a tree whose columns carry user-chosen names (Tree(..., names=SWCNames(...))): same result as for the twin with
+    the default names, column for column, and no column added."""
+    from swcgeom.core import Tree, sort_tree
+    from swcgeom.core.swc_utils import SWCNames
+
+    n = len(pp)
+    nm = SWCNames(id="ID", type="T", x="X", y="Y", z="Z", r="R", pid="PID")
+    std = dict(id=np.arange(n, dtype=np.int32), type=np.array([1 + (i % 3) for i in range(n)], dtype=np.int32), x=np.arange(n, dtype=np.float32) * 1.5,
+               y=np.arange(n, dtype=np.float32) - 2, z=np.zeros(n, dtype=np.float32), r=np.ones(n, dtype=np.float32) + np.arange(n, dtype=np.float32), pid=np.array(pp, dtype=np.int32))
+    ren = dict(id="ID", type="T", x="X", y="Y", z="Z", r="R", pid="PID")
+    spec = dict(parent_row=list(pp), names=list(nm))
+    try:
+        a = sort_tree(Tree(n, **{k: v.copy() for k, v in std.items()}))
+        b = sort_tree(Tree(n, **{ren[k]: v.copy() for k, v in std.items()}, names=nm))
+        if sorted(b.keys()) != sorted(ren.values()):
+            ctx.violation("sort_tree", "columns-follow-the-bijection", spec, f"columns {sorted(b.keys())}", f"exactly the tree's own columns {sorted(ren.values())}", spec)
+        elif any(not np.array_equal(a.get_ndata(k), b.get_ndata(ren[k])) for k in std) or not np.array_equal(b.id(), np.arange(n)):
+            ctx.violation("sort_tree", "columns-follow-the-bijection", spec, {ren[k]: [float(x) for x in b.get_ndata(ren[k])] for k in ("id", "pid")},
+                          {k: [float(x) for x in a.get_ndata(k)] for k in ("id", "pid")}, spec)
+    except Exception as e:
+        ctx.violation("sort_tree", "operation-raises", spec, f"{type(e).__name__}: {e}", "no exception", spec)
+    ctx.case("sort_tree-custom-names", dict(parent_row=list(pp)), nontrivial=n >= 2)
+
+
 def labellings(n, rng, full):
     """Injective id labellings of the rows."""
     if full:
@@ -331,10 +356,12 @@ def run(ctx):
                 if pp[0] == -1:
                     for e in (0, 1, 2):
                         check_case(lim, "sort_tree", pp, tuple(range(n)), e)
+                    if n <= 4:
+                        check_custom_names(lim, pp)
         ctx.rule(
             f"every rooted labelled tree on the rows of a table with <= {nmax} rows (= all row permutations of all sorted tables, root at any row) x "
             "id labellings (all permutations of 0..n-1 for n<=4 and the non-contiguous {3,10,11,20,..}; contiguous/reversed/non-contiguous/shuffled/1-based above) for sort_nodes_impl; "
-            "data-frame and file forms on every structure <= 5 rows with 0-2 extra columns and rotating labellings; sort_tree on every tree with root 0 x 0-2 extra columns; "
+            "data-frame and file forms on every structure <= 5 rows with 0-2 extra columns and rotating labellings; sort_tree on every tree with root 0 x 0-2 extra columns, and (<= 4 nodes) with user-chosen column names; "
             "each result sorted a second time. Non-trivial = >= 2 nodes",
             exhaustive=True,
         )
@@ -358,7 +385,10 @@ class _Collect:
 
 def replay(spec):
     c = _Collect()
-    check_case(c, spec["carrier"], spec["parent_row"], spec["ids"], spec["extra_columns"])
+    if "names" in spec:
+        check_custom_names(c, tuple(spec["parent_row"]))
+    else:
+        check_case(c, spec["carrier"], spec["parent_row"], spec["ids"], spec["extra_columns"])
     for v in c.v:
         print("  still failing:", v[:2], v[3:5])
     return not c.v
